@@ -32,7 +32,11 @@ PROVED_NOTE = ("proved: value_for = innermost enclosing definition (function vs 
                "relational theorems are proved for node lists AND lifted through code generation to whole programs (assemble_ast): "
                "insertions of definitions anywhere in the statement tree (any depth, any number, code-block arguments included), "
                "renaming throughout the program (code-block arguments included; the passes are proved blind to stored code blocks). "
-               "Correspondence-only: that codegen.py / nodes.py / symbols.py compute what the model computes (twins + ASM tie).")
+               "Correspondence-only: that codegen.py / nodes.py / symbols.py compute what the model computes (twins + ASM tie)."
+               " SOURCE TEXT: the front-end round trip (Front_roundtrip: printing a printable AST, scanning and parsing the text "
+               "gives the AST back up to positions; Front_assemble_ast_printed: assembling the printed text gives the blocks and labels of "
+               "the AST-level assembly) carries these AST-level statements to the source text of every printable program; its lexicon "
+               "side condition is discharged on the lexicon regenerated from /repo in each run.")
 MANIFEST = {
     "text": ("Coq theorems over the Gallina model of Scope.value_for / add_symbol / restore_scope(exports) (all scope trees); "
              "model of the whole assembler tied to the code by differential runs; oracles on the implementation: renamed and "
